@@ -1,10 +1,12 @@
 import GixModel.Model.C24Core
 import GixModel.Spec.C24
+import GixModel.Spec.C24Ext
 /-
 C24 — driver glue for the index-decoder model (`Model/C24Core.lean`) and the git-side spec
 (`Spec/C24.lean`): canonical rendering of a decoded index and the line protocol.
   dec <hex>      decode with thread limits 1,2,3,4,8,16 (must equal what gitoxide observed)
   spec <hex>     decode, re-encode with the transcription of git's writer, compare with git's bytes
+  specext <hex>  the same for the UNTR and link payloads
   varint <hex>   `leb64_from_read`
   sha1 <hex>     the SHA-1 the driver instantiates the model with
 -/
@@ -96,6 +98,9 @@ def handle? : List String → Option String
   | ["spec", hex] => do
     let data ← bytesOfHex hex
     some (Spec.C24.specCheck Sha1C24.sha1 data)
+  | ["specext", hex] => do
+    let data ← bytesOfHex hex
+    some (Spec.C24.extSpecCheck data)
   | ["varint", hex] => do
     let data ← bytesOfHex hex
     match varInt data with
